@@ -358,6 +358,11 @@ pub fn gen_project(rng: &mut Rng, cfg: &DocCfg) -> Vec<(String, Doc)> {
             fpool.customs.push(vec![imp[imp.len() - 1].clone()]);
             // near misses: prefixed simple name, other package
             fpool.customs.push(vec![format!("X{}", imp[imp.len() - 1])]);
+            // longer than the import: the whole import path is a proper suffix of the reference
+            // (`com.pkg.Foo` for `import pkg.Foo`): never a match
+            let mut longer = vec![(*rng.pick(&["com", "x", "a"])).to_string()];
+            longer.extend(imp.iter().cloned());
+            fpool.customs.push(longer);
             // suffixes of the dotted import that do not start at a '.' boundary (`pkg.Foo` for
             // `a.xpkg.Foo`, `oo` for `a.Foo`): they must never match
             let joined = imp.join(".");
@@ -373,6 +378,11 @@ pub fn gen_project(rng: &mut Rng, cfg: &DocCfg) -> Vec<(String, Doc)> {
         for d in &decls {
             fpool.customs.push(d.path.clone());
             fpool.customs.push(vec![d.path[d.path.len() - 1].clone()]);
+            if rng.chance(1, 2) {
+                let mut longer = vec![(*rng.pick(&["com", "x", "a"])).to_string()];
+                longer.extend(d.path.iter().cloned());
+                fpool.customs.push(longer);
+            }
         }
         // fully qualified references to items of the project, whether imported or not
         for k in &keys {
